@@ -501,6 +501,15 @@ class Sim:
         raise Fork([(("rel", repr(key), "".join(sorted(yes))), lambda s, k=key, a=yes: s.rels.__setitem__(k, a)),
                     (("rel", repr(key), "".join(sorted(no))), lambda s, k=key, a=no: s.rels.__setitem__(k, a))])
 
+    def assume_int_rel(self, st, a, b, allowed):
+        """Constrain the relation of a vs b (abstract ints) to `allowed` (subset of '<=>')."""
+        d = int_sub(a, b)
+        if isinstance(d, Const):
+            return
+        key, flip = self.canon_int(d)
+        al = frozenset({"<": ">", ">": "<", "=": "="}[x] for x in allowed) if flip else frozenset(allowed)
+        st.rels[key] = st.rels.get(key, ALL3) & al
+
     def canon_int(self, d):
         if isinstance(d, Lin):
             if d.terms[0][1] < 0:
@@ -593,6 +602,19 @@ class Sim:
             return bool(v.val)
         if isinstance(v, Term) and v.op == "Not":
             return not self.decide_bool(st, v.args[0])
+        if isinstance(v, Term) and v.op.startswith("Cmp:"):
+            _, op, kind = v.op.split(":")
+            ty = prim("bool") if kind == "b" else (prim("f32") if kind == "f" else prim("i64"))
+            r = self.binop(st, op, v.args[0], v.args[1], ty, prim("bool"), lazy_off=True)
+            return bool(r.val)
+        if isinstance(v, Term) and v.op in ("BitAnd", "BitOr", "BitXor") and len(v.args) == 2:
+            x = self.decide_bool(st, v.args[0])
+            if v.op == "BitAnd" and not x:
+                return False
+            if v.op == "BitOr" and x:
+                return True
+            y = self.decide_bool(st, v.args[1])
+            return {"BitAnd": x and y, "BitOr": x or y, "BitXor": x != y}[v.op]
         if v in st.bools:
             return st.bools[v]
         raise Fork([(("bool", repr(v), True), lambda s, k=v: s.bools.__setitem__(k, True)),
@@ -601,9 +623,16 @@ class Sim:
     # ------------------------------------------------------------------ rvalues
     CMP_SETS = {"Lt": "<", "Le": "<=", "Gt": ">", "Ge": ">=", "Eq": "=", "Ne": "<>"}
 
-    def binop(self, st, op, a, b, ty_a, res_ty):
+    def binop(self, st, op, a, b, ty_a, res_ty, lazy_off=False):
         a, b = self.resolve(st, a), self.resolve(st, b)
         fl = is_float_ty(ty_a) or (isinstance(a, Const) and isinstance(a.val, float))
+        if op in self.CMP_SETS and not lazy_off:
+            # comparisons are decided lazily: fork only when the boolean is branched on
+            try:
+                return self.binop(st, op, a, b, ty_a, res_ty, lazy_off=True)
+            except Fork:
+                kind = "b" if (is_bool_ty(ty_a) or (isinstance(a, Const) and isinstance(a.val, bool))) else ("f" if fl else "i")
+                return Term("Cmp:%s:%s" % (op, kind), (a, b), prim("bool"))
         if op in self.CMP_SETS:
             if is_bool_ty(ty_a) or (isinstance(a, Const) and isinstance(a.val, bool)):
                 x, y = self.decide_bool(st, a), self.decide_bool(st, b)
@@ -636,6 +665,14 @@ class Sim:
         elif is_bool_ty(ty_a):
             if isinstance(a, Const) and isinstance(b, Const):
                 r = Const({"BitAnd": a.val and b.val, "BitOr": a.val or b.val, "BitXor": a.val != b.val}[base], prim("bool"))
+            elif base == "BitAnd" and any(isinstance(x, Const) and x.val is False for x in (a, b)):
+                r = Const(False, prim("bool"))
+            elif base == "BitOr" and any(isinstance(x, Const) and x.val is True for x in (a, b)):
+                r = Const(True, prim("bool"))
+            elif base == "BitAnd" and any(isinstance(x, Const) and x.val is True for x in (a, b)):
+                r = b if isinstance(a, Const) else a
+            elif base == "BitOr" and any(isinstance(x, Const) and x.val is False for x in (a, b)):
+                r = b if isinstance(a, Const) else a
             else:
                 r = Term(base, (a, b), ty_a)
         else:
@@ -879,14 +916,19 @@ class Sim:
         if not gargs:
             return None
         self_ty = gargs[0]
-        if self_ty.get("k") != "adt":
-            return None
-        a = self.prog.adt(self_ty["did"])
-        if a is None or not a["local"]:
+        if self_ty.get("k") == "adt":
+            a = self.prog.adt(self_ty["did"])
+            if a is None or not a["local"]:
+                return None
+        elif self_ty.get("k") != "prim":
             return None
         trait = self.models.norm(fnj["trait"])
         for imp in self.prog.impls:
-            if self.models.norm(imp.get("trait", "")) != trait or imp["self"].get("k") != "adt" or imp["self"]["did"] != self_ty["did"]:
+            if self.models.norm(imp.get("trait", "")) != trait or imp["self"].get("k") != self_ty.get("k"):
+                continue
+            if self_ty.get("k") == "adt" and imp["self"]["did"] != self_ty["did"]:
+                continue
+            if self_ty.get("k") == "prim" and imp["self"]["name"] != self_ty["name"]:
                 continue
             # unify impl trait args (self + trait params) with gargs prefix
             targs = imp["trait_args"]
@@ -1094,11 +1136,16 @@ class Sim:
         while work:
             st = work.pop()
             while True:
-                if not st.frames:
-                    leaves.append(Leaf("return", st.result, st))
-                    break
                 trial = st.copy()
                 try:
+                    if not st.frames:
+                        r = self.resolve(st, st.result)
+                        if isinstance(r, Term) and is_bool_ty(r.ty) and (r.op.startswith("Cmp:") or r.op in ("BitAnd", "BitOr", "BitXor", "Not")):
+                            trial.result = Const(self.decide_bool(trial, r), prim("bool"))   # may fork
+                            st = trial
+                            continue
+                        leaves.append(Leaf("return", st.result, st))
+                        break
                     self.step_inplace(trial)
                     st = trial
                 except Fork as f:
